@@ -56,7 +56,7 @@ def handle : Handler
   | "rankmins" :: p :: u :: npar :: rows => do
       let p ← p.toNat?
       let t ← parseTable u npar rows
-      if t.rows.length < 2 then some "err"
+      if t.rows.length < 1 then some "err"      -- an EMPTY table raises at line 42 (one-row tables are fine since f575df7)
       else some ("ok " ++ ";".intercalate ((combined floatOps t p).map fmtMin))
   | _ => none
 
